@@ -1,2 +1,21 @@
-(* PropsC13.v *)
-From Ucfg Require Import Base ParseInt Consts Field Tree PathOps Merge OTree F64 Conv Reify.
+(* PropsC13.v — C13: Unpack changes only what the config mentions and nothing when it fails.
+   Statements only; proofs are in ProofsReify.v.
+
+   PARTIAL: proved is the frame law of one struct level, for every struct type and every
+   configuration: an unexported or ignored field, and a (non-struct, non-inline) field whose
+   setting is absent or nil, holds after a successful Unpack exactly the value it held
+   before; and the number of fields is unchanged.  By construction of the model a failing
+   Unpack returns no value at all (the caller keeps the old one): that the implementation
+   does not write into the target before failing is checked on the implementation by the
+   correspondence run (CFault cases compare the struct before and after).  NOT proved: the
+   recursive statement through nested structs, pointers and collections. *)
+From Ucfg Require Import Base ParseInt Consts Field Tree PathOps Merge OTree F64 Conv Reify ProofsReify.
+
+Theorem c13_frame_one_level_partial : forall f o fs vs cfg g,
+  reify_struct (S f) o (TStruct fs) (GStructV vs) cfg = Ok g ->
+  List.length vs = List.length fs ->
+  exists r, g = GStructV r /\ List.length r = List.length fs /\
+  forall i fld x, nth_error fs i = Some fld -> nth_error vs i = Some x ->
+    (untouched fld = true \/ unmentioned o cfg fld) -> nth_error r i = Some x.
+Proof. exact reify_struct_frame. Qed.
+Print Assumptions c13_frame_one_level_partial.
